@@ -766,7 +766,7 @@ Proof.
     { apply Forall_forall. intros v Hv'. rewrite Forall_forall in Hv. apply Hv. apply in_rev in Hv'. exact Hv'. }
     unfold do_instantiate in Es. rewrite Hn in Es. cbn in Es. rewrite pat_eqb_refl in Es.
     destruct d as [|kv d'].
-    + destruct s; [|discriminate]. inv Es. split; [constructor; [exact H1 | constructor] | exact Hme].
+    + inv Es. split; [|exact Hme]. cbn. constructor; [exact H1 | exact Ht].
     + cbv iota in Es.
       match type of Es with (if ?c then _ else _) = _ => replace c with true in Es by (symmetry; exact Hp) end.
       inv Es. split; [|exact Hme]. unfold set_tstack; cbn [t_stack]. constructor; [|exact (Forall_skipn _ _ (S (length d')) s Ht)].
